@@ -91,6 +91,8 @@ func seqAlphabet(era drive.Era) []seqEvent {
 			{name: "A:1usd>PEG", signer: KA, txs: []kit.Tx{kit.Conversion(A, "pUSD", 1, "PEG")}},
 			{name: "A:fct>PEG", signer: KA, txs: []kit.Tx{kit.Conversion(A, "pFCT", 3000e8, "PEG")}}}})
 		// a PEG request by B, who can afford it only after a transfer from A: rejected whole otherwise, no part in the bank
+		// a PEG request in one batch with a conversion the height forbids (into pFCT): rejected whole, nothing is paid
+		ev = append(ev, seqEvent{name: "Pf", rates: R1(), submit: one("A:usd>PEG,A:usd>fct", KA, kit.Conversion(A, "pUSD", x/4, "PEG"), kit.Conversion(A, "pUSD", x/4, "pFCT"))})
 		ev = append(ev, seqEvent{name: "Pb", rates: R1(), submit: one("B:usd>PEG", KB, kit.Conversion(B, "pUSD", x/2, "PEG"))})
 	}
 	if era.V202 != drive.Never {
@@ -504,7 +506,12 @@ func seqPlanFor(thorough bool, prop string) []seqEra {
 		}
 	}}
 	if !thorough {
-		return []seqEra{noeur, st(drive.StPIP10, 3), st(drive.StV4, 2), st(drive.StV202, 2), bd(drive.StV4, 2), bd(drive.StV204Burn, 2), bd(drive.StV20Dev, 2), bd(drive.StOneWayFCT, 2), snq, gap(2)}
+		var extra []seqEra
+		if prop == "C03" || prop == "" {
+			// the per-height bank era to depth 3: a PEG request, a block without rates, the executing block
+			extra = append(extra, st(drive.StBank, 3))
+		}
+		return append(extra, []seqEra{noeur, st(drive.StPIP10, 3), st(drive.StV4, 2), st(drive.StV202, 2), bd(drive.StV4, 2), bd(drive.StV204Burn, 2), bd(drive.StV20Dev, 2), bd(drive.StOneWayFCT, 2), snq, gap(2)}...)
 	}
 	// thorough: depth 3 everywhere, depth 4 in the current era and in one more era that depends on the property
 	// (the six properties share the explorer; between them every listed era is covered to depth 4)
